@@ -155,3 +155,13 @@ claim(
     TB, "enum producer/consumer coverage, three-way sibling template comparison of runtime primitives (VM / WASM host / Rust template), normal-form agreement",
     "DESIGN.md §2 C18",
 )
+claim(
+    "C19", "other",
+    "Inventory and lock discipline of process-global state reachable from the compile and run entry points: every static is "
+    "classified (`static mut` and interior-mutable statics outside a synchronisation primitive must be audited); no mutation of the "
+    "process environment on the compile path (today: MacroFileEnvGuard, known finding F15); closures run under the interner lock "
+    "never re-enter it, and the held→acquired graph over the global locks is acyclic; every `unsafe impl Send/Sync` is audited. "
+    "Cross-talk through the shared interner's contents and behaviour under particular schedules are not decided.",
+    TB, "global-state inventory from type-checked statics/impls, call-graph reachability of environment mutation, lock-order graph with closure-scoped lock regions",
+    "DESIGN.md §2 C19",
+)
